@@ -2,7 +2,7 @@
    the real-number axioms of the standard library (ClassicalDedekindReals.sig_forall_dec, sig_not_dec,
    FunctionalExtensionality.functional_extensionality_dep) are inherited from Coq.Reals through Flocq. *)
 From Coq Require Import ZArith Reals Psatz Lra Lia List Bool.
-From Flocq Require Import Core BinarySingleNaN Relative Sterbenz.
+From Flocq Require Import Core BinarySingleNaN Relative Sterbenz Plus_error.
 Require Import CV.SpreadFloat.
 Local Open Scope R_scope.
 
@@ -408,7 +408,6 @@ Proof.
 Qed.
 
 (* the expression alone: dem = 2^-25 (1 + 2^-23), bin [2097153, 2097154]: coordinate 2097152.75 *)
-Definition wit_dem : f32 := f_of_me 8388609 (-48).
 Lemma spread_expr_f_below_witness :
   is_finite wit_dem = true /\ 0 <= B2R wit_dem <= 1 /\
   is_finite (spread_expr_f wit_dem (f_of_Z 2097154) (f_of_Z 2097153)) = true /\
@@ -460,10 +459,6 @@ Qed.
 
 (* the whole of spreadCells on a bin [-117183, -117133] with three cells of demand 1, 32044, 57 (total 32102,
    every conversion and the sum exact): the first cell lands below the bin, at -117183.0078125 *)
-Definition wit_targets : list f32 := [f_of_Z 0; f_of_Z 1; f_of_Z 2].
-Definition wit_demands : list Z := [1; 32044; 57]%Z.
-Definition wit_cells : list f32 :=
-  spread_cells_int_f false wit_targets wit_demands (-117183) (-117133).
 
 Lemma spread_cells_f_below_witness :
   exists c : f32, nth_error wit_cells 0 = Some c /\ is_finite c = true /\ B2R c < IZR (-117183).
@@ -472,18 +467,12 @@ Proof. apply below_check_sound. vm_compute. reflexivity. Qed.
 (* 4242 cells of demand 1 in the bin [0, 100000], targets 0, 1, 2, ...: the total 4242 and 1/4242 are
    rounded once, the 8484 additions to `dem` drift upwards, dem = 1 + 19 * 2^-23 when the last cell is
    reached, 1.0f - dem is negative and the last cell lands above the bin, at 100000.2265625 *)
-Definition wit2_n : nat := 4242.
-Definition wit2_cells : list f32 :=
-  spread_cells_int_f false (map (fun i => f_of_Z (Z.of_nat i)) (seq 0 wit2_n)) (repeat 1%Z wit2_n) 0 100000.
 
 Lemma spread_cells_f_above_witness :
   exists c : f32, nth_error wit2_cells 4241 = Some c /\ is_finite c = true /\ IZR 100000 < B2R c.
 Proof. apply above_check_sound. vm_compute. reflexivity. Qed.
 
 (* ... and the value of `dem` itself exceeds 1 there (the quantity item 2 of the analysis bounds) *)
-Definition wit2_dem_final : f32 :=
-  fst (spread_cells_state_f false (map (fun i => f_of_Z (Z.of_nat i)) (seq 0 wit2_n))
-                            (map f_of_Z (repeat 1%Z wit2_n)) (f_of_Z 0) (f_of_Z 100000)).
 Lemma spread_dem_exceeds_one_witness :
   is_finite wit2_dem_final = true /\ 1 < B2R wit2_dem_final.
 Proof.
@@ -494,8 +483,6 @@ Qed.
 
 (* a small instance of the same effect: four cells of demand 1994072, 1655332, 1892993, 1 (total 5542398 < 2^24:
    every conversion and the total are exact) in the bin [0, 100000]: dem = 1 + 2^-23 at the last cell *)
-Definition wit3_cells : list f32 :=
-  spread_cells_int_f false [f_of_Z 0; f_of_Z 1; f_of_Z 2; f_of_Z 3] [1994072; 1655332; 1892993; 1]%Z 0 100000.
 
 Lemma spread_cells_f_above_witness_small :
   exists c : f32, nth_error wit3_cells 3 = Some c /\ is_finite c = true /\ IZR 100000 < B2R c.
@@ -557,4 +544,285 @@ Proof.
   { induction l as [|k t IH]; intros st Hst; [exact Hst|]. simpl. apply IH.
     apply spread_step_clamped_ok; assumption. }
   apply G. cbn [snd]. apply Forall_forall. intros x Hx. apply repeat_spec in Hx. left. exact Hx.
+Qed.
+
+(* ------------------------------------------------------------------ the export step (binary64 + std::round) *)
+Notation fexp64 := (FLT_exp (-1074) 53).
+Local Instance prec53 : Prec_gt_0 53 := p53.
+Local Instance valid64 : Valid_exp fexp64 := FLT_exp_valid (-1074) 53.
+
+Lemma rnd64_err : forall x, Rabs (rnd64 x - x) <= bpow radix2 (-53) * Rabs x + bpow radix2 (-1075).
+Proof.
+  intros x. unfold rnd64.
+  destruct (Rlt_or_le (Rabs x) (bpow radix2 (-1074 + 53 - 1))) as [Hs|Hn].
+  - pose proof (error_le_half_ulp radix2 fexp64 (fun z => negb (Z.even z)) x) as H.
+    rewrite (ulp_FLT_small radix2 (-1074) 53) in H.
+    2:{ eapply Rlt_trans; [exact Hs|]. apply bpow_lt. lia. }
+    assert (E : / 2 * bpow radix2 (-1074) = bpow radix2 (-1075)).
+    { change (/ 2) with (bpow radix2 (-1)). rewrite <- bpow_plus. reflexivity. }
+    rewrite E in H.
+    pose proof (Rabs_pos x). pose proof (bpow_gt_0 radix2 (-53)).
+    eapply Rle_trans; [exact H|]. nra.
+  - pose proof (relative_error_N_FLT radix2 (-1074) 53 ltac:(lia) (fun z => negb (Z.even z)) x Hn) as H.
+    match type of H with _ <= ?c * _ => replace c with (bpow radix2 (-53)) in H end.
+    2:{ change (/ 2) with (bpow radix2 (-1)). rewrite <- bpow_plus. reflexivity. }
+    pose proof (bpow_gt_0 radix2 (-1075)). lra.
+Qed.
+
+(* the exposed lower-left coordinate is within 1/2 (std::round) plus one binary64 rounding of x - size/2 *)
+Lemma export_coord_R_blend : forall (x : R) (size : Z),
+  Rabs (IZR (export_coord_R x size) - (x - / 2 * IZR size))
+  <= / 2 + bpow radix2 (-53) * Rabs (x - / 2 * IZR size) + bpow radix2 (-1075).
+Proof.
+  intros x size. unfold export_coord_R.
+  set (y := x - / 2 * IZR size).
+  pose proof (rnd64_err y) as H1.
+  pose proof (Znearest_half (Z.leb 0) (rnd64 y)) as H2.
+  replace (IZR (ZnearestA (rnd64 y)) - y) with (- (rnd64 y - IZR (ZnearestA (rnd64 y))) + (rnd64 y - y)) by ring.
+  eapply Rle_trans; [apply Rabs_triang|]. rewrite Rabs_Ropp. lra.
+Qed.
+
+(* with the magnitudes of the property's domain (centre below 2^30, size an int): the excess over 1/2 is < 2^-21 *)
+Lemma export_coord_R_blend_bounded : forall (x : R) (size : Z),
+  Rabs x <= bpow radix2 30 -> (Z.abs size <= 2 ^ 31)%Z ->
+  Rabs (IZR (export_coord_R x size) - (x - / 2 * IZR size)) <= / 2 + bpow radix2 (-21).
+Proof.
+  intros x size Hx Hs.
+  eapply Rle_trans; [apply export_coord_R_blend|].
+  assert (Hsz : Rabs (IZR size) <= bpow radix2 31).
+  { rewrite <- abs_IZR. apply Rle_trans with (IZR (2 ^ 31)); [apply IZR_le; exact Hs|].
+    rewrite (IZR_Zpower radix2) by lia. apply Rle_refl. }
+  assert (Hy : Rabs (x - / 2 * IZR size) <= bpow radix2 31).
+  { eapply Rle_trans; [apply Rabs_triang|]. rewrite Rabs_Ropp, Rabs_mult, (Rabs_pos_eq (/ 2)) by lra.
+    change (bpow radix2 31) with (2 * bpow radix2 30). pose proof (bpow_gt_0 radix2 30).
+    change (bpow radix2 31) with (2 * bpow radix2 30) in Hsz. lra. }
+  assert (H53 : bpow radix2 (-53) * bpow radix2 31 = bpow radix2 (-22)).
+  { rewrite <- bpow_plus. reflexivity. }
+  assert (Hm : bpow radix2 (-53) * Rabs (x - / 2 * IZR size) <= bpow radix2 (-22)).
+  { rewrite <- H53. apply Rmult_le_compat_l; [apply bpow_ge_0|exact Hy]. }
+  assert (Ht : bpow radix2 (-1075) <= bpow radix2 (-22)) by (apply bpow_le; lia).
+  assert (H21 : bpow radix2 (-21) = 2 * bpow radix2 (-22)).
+  { change 2 with (bpow radix2 1). rewrite <- bpow_plus. reflexivity. }
+  lra.
+Qed.
+
+(* ------------------------------------------------------------------ the accumulation of `dem` (item 2) *)
+(* a sum of two binary32 values has a pure relative error (no underflow term) *)
+Lemma rnd32_plus_rel : forall a b, fmt32 a -> fmt32 b ->
+  Rabs (rnd32 (a + b) - (a + b)) <= bpow radix2 (-24) * Rabs (a + b).
+Proof.
+  intros a b Fa Fb.
+  destruct (Rlt_or_le (Rabs (a + b)) (bpow radix2 (-149 + 24 - 1))) as [Hs|Hn].
+  - rewrite rnd32_id.
+    + replace (a + b - (a + b)) with 0 by ring. rewrite Rabs_R0.
+      apply Rmult_le_pos; [apply bpow_ge_0|apply Rabs_pos].
+    + apply (FLT_format_plus_small radix2 (-149) 24); try assumption.
+      apply Rlt_le. eapply Rlt_trans; [exact Hs|]. apply bpow_lt. lia.
+  - pose proof (relative_error_N_FLT radix2 (-149) 24 ltac:(lia) (fun z => negb (Z.even z)) (a + b) Hn) as H.
+    match type of H with _ <= ?c * _ => replace c with (bpow radix2 (-24)) in H end.
+    2:{ change (/ 2) with (bpow radix2 (-1)). rewrite <- bpow_plus. reflexivity. }
+    exact H.
+Qed.
+
+Lemma rnd32_rel : forall x, bpow radix2 (-126) <= Rabs x ->
+  Rabs (rnd32 x - x) <= bpow radix2 (-24) * Rabs x.
+Proof.
+  intros x Hn.
+  pose proof (relative_error_N_FLT radix2 (-149) 24 ltac:(lia) (fun z => negb (Z.even z)) x Hn) as H.
+  match type of H with _ <= ?c * _ => replace c with (bpow radix2 (-24)) in H end.
+  2:{ change (/ 2) with (bpow radix2 (-1)). rewrite <- bpow_plus. reflexivity. }
+  exact H.
+Qed.
+
+Lemma fmt32_rnd : forall x, fmt32 (rnd32 x).
+Proof. intros x. apply generic_format_round; auto with typeclass_instances. Qed.
+
+Lemma rnd32_nonneg : forall x, 0 <= x -> 0 <= rnd32 x.
+Proof. intros x H. rewrite <- rnd32_0. apply rnd32_le. exact H. Qed.
+
+(* left-to-right float accumulation (std::accumulate, and the two additions per cell to `dem`) *)
+Notation u32 := (bpow radix2 (-24)).
+
+Lemma acc_R_bounds : forall xs d,
+  fmt32 d -> 0 <= d -> Forall (fun x => fmt32 x /\ 0 <= x) xs ->
+  fmt32 (acc_R d xs) /\
+  (d + sum_R xs) * (1 - u32) ^ length xs <= acc_R d xs <= (d + sum_R xs) * (1 + u32) ^ length xs.
+Proof.
+  assert (Hu : 0 < u32 < 1).
+  { split; [apply bpow_gt_0|]. change 1 with (bpow radix2 0). apply bpow_lt. lia. }
+  induction xs as [|x t IH]; intros d Fd Hd Hxs.
+  - simpl. split; [exact Fd|]. lra.
+  - inversion Hxs as [|x' t' [Fx Hx] Ht]; subst.
+    pose proof (abs_le_inv _ _ (rnd32_plus_rel d x Fd Fx)) as He.
+    rewrite (Rabs_pos_eq (d + x)) in He by lra.
+    assert (H0 : 0 <= rnd32 (d + x)) by (apply rnd32_nonneg; lra).
+    destruct (IH (rnd32 (d + x)) (fmt32_rnd _) H0 Ht) as [IF [IL IU]].
+    assert (Hst : 0 <= sum_R t).
+    { clear -Ht. induction Ht as [|y l [_ Hy] _ IHl]; simpl; lra. }
+    assert (P1 : 0 <= (1 - u32) ^ length t) by (apply pow_le; lra).
+    assert (P2 : 0 <= (1 + u32) ^ length t) by (apply pow_le; lra).
+    change (acc_R d (x :: t)) with (acc_R (rnd32 (d + x)) t).
+    split; [exact IF|].
+    assert (E1 : (d + sum_R (x :: t)) * (1 - u32) ^ length (x :: t)
+                 = ((d + x) * (1 - u32) + sum_R t * (1 - u32)) * (1 - u32) ^ length t) by (simpl; ring).
+    assert (E2 : (d + sum_R (x :: t)) * (1 + u32) ^ length (x :: t)
+                 = ((d + x) * (1 + u32) + sum_R t * (1 + u32)) * (1 + u32) ^ length t) by (simpl; ring).
+    rewrite E1, E2. split.
+    + eapply Rle_trans; [|exact IL]. apply Rmult_le_compat_r; [exact P1|]. nra.
+    + eapply Rle_trans; [exact IU|]. apply Rmult_le_compat_r; [exact P2|]. nra.
+Qed.
+
+Lemma sum_R_nonneg : forall xs, Forall (fun x => 0 <= x) xs -> 0 <= sum_R xs.
+Proof. intros xs H. induction H as [|y l Hy _ IH]; simpl; lra. Qed.
+
+Lemma sum_R_firstn_le : forall xs k, Forall (fun x => 0 <= x) xs -> sum_R (firstn k xs) <= sum_R xs.
+Proof.
+  induction xs as [|x t IH]; intros k H.
+  - rewrite firstn_nil. apply Rle_refl.
+  - inversion H as [|x' t' Hx Ht]; subst. destruct k; simpl.
+    + pose proof (sum_R_nonneg t Ht). lra.
+    + specialize (IH k Ht). lra.
+Qed.
+
+Lemma pow_le_1_anti : forall x m n, 0 <= x <= 1 -> (m <= n)%nat -> x ^ n <= x ^ m.
+Proof.
+  intros x m n Hx Hmn. induction Hmn as [|n' _ IH]; [apply Rle_refl|].
+  simpl. assert (0 <= x ^ n') by (apply pow_le; lra). nra.
+Qed.
+
+(* one increment: 0 <= inc <= (d/2) * inv * (1+u)^2 for d >= 1 and 2^-102 <= inv *)
+Lemma inc_R_bound : forall inv d, fmt32 d -> 1 <= d -> bpow radix2 (-102) <= inv ->
+  fmt32 (inc_R inv d) /\ 0 <= inc_R inv d <= / 2 * d * inv * (1 + u32) ^ 2.
+Proof.
+  intros inv d Fd Hd Hinv. unfold inc_R.
+  assert (Hu : 0 < u32 < / 2).
+  { split; [apply bpow_gt_0|]. change (/ 2) with (bpow radix2 (-1)). apply bpow_lt. lia. }
+  assert (B126 : bpow radix2 (-126) <= / 2 * d).
+  { apply Rle_trans with (/ 2); [|lra]. change (/ 2) with (bpow radix2 (-1)). apply bpow_le. lia. }
+  pose proof (abs_le_inv _ _ (rnd32_rel (/ 2 * d) ltac:(rewrite Rabs_pos_eq by lra; exact B126))) as Hh.
+  rewrite (Rabs_pos_eq (/ 2 * d)) in Hh by lra.
+  set (h := rnd32 (/ 2 * d)) in *.
+  assert (Hh4 : / 4 <= h) by nra.
+  assert (Hip : 0 < inv) by (pose proof (bpow_gt_0 radix2 (-102)); lra).
+  assert (Hp : bpow radix2 (-126) <= h * inv).
+  { apply Rle_trans with (/ 4 * bpow radix2 (-102)).
+    - change (/ 4) with (bpow radix2 (-2)). rewrite <- bpow_plus. apply bpow_le. lia.
+    - pose proof (bpow_gt_0 radix2 (-102)). nra. }
+  pose proof (abs_le_inv _ _ (rnd32_rel (h * inv) ltac:(rewrite Rabs_pos_eq by nra; exact Hp))) as Hi.
+  rewrite (Rabs_pos_eq (h * inv)) in Hi by nra.
+  split; [apply fmt32_rnd|]. split.
+  - apply rnd32_nonneg. nra.
+  - assert (A1 : h * inv <= / 2 * d * (1 + u32) * inv) by (apply Rmult_le_compat_r; lra).
+    assert (A2 : rnd32 (h * inv) <= h * inv * (1 + u32)) by lra.
+    assert (A3 : h * inv * (1 + u32) <= / 2 * d * (1 + u32) * inv * (1 + u32)) by (apply Rmult_le_compat_r; lra).
+    replace (/ 2 * d * inv * (1 + u32) ^ 2) with (/ 2 * d * (1 + u32) * inv * (1 + u32)) by ring. lra.
+Qed.
+
+Lemma incs_R_props : forall inv vs, bpow radix2 (-102) <= inv ->
+  Forall (fun d => fmt32 d /\ 1 <= d) vs ->
+  Forall (fun x => fmt32 x /\ 0 <= x) (incs_R inv vs) /\
+  sum_R (incs_R inv vs) <= sum_R vs * inv * (1 + u32) ^ 2 /\
+  length (incs_R inv vs) = (2 * length vs)%nat.
+Proof.
+  intros inv vs Hinv H. induction H as [|d t [Fd Hd] Ht [IH1 [IH2 IH3]]].
+  - simpl. split; [constructor|]. split; [lra|reflexivity].
+  - destruct (inc_R_bound inv d Fd Hd Hinv) as [F [L U]].
+    change (incs_R inv (d :: t)) with (inc_R inv d :: inc_R inv d :: incs_R inv t).
+    split; [constructor; [split; assumption|constructor; [split; assumption|exact IH1]]|]. split.
+    + cbn [sum_R fold_right]. fold (sum_R (incs_R inv t)). fold (sum_R t). lra.
+    + cbn [length]. rewrite IH3. lia.
+Qed.
+
+Lemma sum_R_ge_1 : forall xs, xs <> [] -> Forall (fun d => fmt32 d /\ 1 <= d) xs -> 1 <= sum_R xs.
+Proof.
+  intros xs Hne H. destruct H as [|x t [_ Hx] Ht]; [congruence|]. simpl.
+  assert (0 <= sum_R t).
+  { apply sum_R_nonneg. eapply Forall_impl; [|exact Ht]. intros a [_ Ha]. lra. }
+  lra.
+Qed.
+
+(* item 2: the value of `dem` after any number k of additions, for at most n cells (demands >= 1, total below
+   2^100): 0 <= dem <= (1+u)^(2n+3) / (1-u)^n with u = 2^-24 *)
+Lemma dem_R_bound : forall (ds vs : list R) (n k : nat),
+  Forall (fun d => fmt32 d /\ 1 <= d) ds -> Forall (fun d => fmt32 d /\ 1 <= d) vs ->
+  ds <> [] -> sum_R vs <= sum_R ds -> (length ds <= n)%nat -> (length vs <= n)%nat ->
+  acc_R 0 ds <= bpow radix2 100 ->
+  0 <= dem_R ds vs k <= (1 + u32) ^ (2 * n + 3) / (1 - u32) ^ n.
+Proof.
+  intros ds vs n k Hds Hvs Hne Hsum Ln Lv Hov. unfold dem_R.
+  assert (Hu : 0 < u32 < / 2).
+  { split; [apply bpow_gt_0|]. change (/ 2) with (bpow radix2 (-1)). apply bpow_lt. lia. }
+  assert (F0 : fmt32 0) by apply generic_format_0.
+  set (T := acc_R 0 ds) in *. set (S := sum_R ds) in *.
+  assert (HS : 1 <= S) by (apply sum_R_ge_1; assumption).
+  assert (Hds' : Forall (fun x => fmt32 x /\ 0 <= x) ds).
+  { eapply Forall_impl; [|exact Hds]. intros a [Fa Ha]. split; [exact Fa|lra]. }
+  destruct (acc_R_bounds ds 0 F0 (Rle_refl 0) Hds') as [_ [TL _]]. fold T in TL. fold S in TL.
+  rewrite Rplus_0_l in TL.
+  set (q := (1 - u32) ^ n).
+  assert (Hq : 0 < q) by (apply pow_lt; lra).
+  assert (HD : S * q <= T).
+  { eapply Rle_trans; [|exact TL]. apply Rmult_le_compat_l; [lra|]. apply pow_le_1_anti; [lra|exact Ln]. }
+  assert (HT : 0 < T) by nra.
+  (* 1/T and inv *)
+  assert (HiT : bpow radix2 (-100) <= 1 / T).
+  { unfold Rdiv. rewrite Rmult_1_l. replace (bpow radix2 (-100)) with (/ bpow radix2 100) by (rewrite <- bpow_opp; reflexivity).
+    apply Rinv_le_contravar; [exact HT|exact Hov]. }
+  assert (HiT126 : bpow radix2 (-126) <= Rabs (1 / T)).
+  { rewrite Rabs_pos_eq by (pose proof (bpow_gt_0 radix2 (-100)); lra).
+    eapply Rle_trans; [|exact HiT]. apply bpow_le. lia. }
+  pose proof (abs_le_inv _ _ (rnd32_rel (1 / T) HiT126)) as Hinv.
+  rewrite (Rabs_pos_eq (1 / T)) in Hinv by (pose proof (bpow_gt_0 radix2 (-100)); lra).
+  set (inv := rnd32 (1 / T)) in *.
+  assert (Hinv102 : bpow radix2 (-102) <= inv).
+  { assert (E : bpow radix2 (-102) = / 4 * bpow radix2 (-100)).
+    { change (/ 4) with (bpow radix2 (-2)). rewrite <- bpow_plus. reflexivity. }
+    pose proof (bpow_gt_0 radix2 (-100)). nra. }
+  destruct (incs_R_props inv vs Hinv102 Hvs) as [PF [PS PL]].
+  set (L := incs_R inv vs) in *.
+  (* the prefix *)
+  assert (PFk : Forall (fun x => fmt32 x /\ 0 <= x) (firstn k L)).
+  { rewrite <- (firstn_skipn k L) in PF. apply Forall_app in PF. apply PF. }
+  destruct (acc_R_bounds (firstn k L) 0 F0 (Rle_refl 0) PFk) as [_ [AL AU]].
+  rewrite Rplus_0_l in AL, AU.
+  assert (PN : Forall (fun x => 0 <= x) L).
+  { eapply Forall_impl; [|exact PF]. intros a [_ Ha]. exact Ha. }
+  assert (PNk : Forall (fun x => 0 <= x) (firstn k L)).
+  { eapply Forall_impl; [|exact PFk]. intros a [_ Ha]. exact Ha. }
+  pose proof (sum_R_nonneg _ PNk) as Hk0. pose proof (sum_R_firstn_le L k PN) as Hk1.
+  set (len := length (firstn k L)) in *.
+  assert (Hlen : (len <= 2 * n)%nat).
+  { unfold len. rewrite firstn_length. lia. }
+  split.
+  - eapply Rle_trans; [|exact AL]. apply Rmult_le_pos; [exact Hk0|]. apply pow_le. lra.
+  - set (c2 := (1 + u32) ^ 2) in *. set (E := (1 + u32) ^ len) in *.
+    assert (Hc2 : 0 < c2) by (apply pow_lt; lra).
+    assert (HE : 0 < E) by (apply pow_lt; lra).
+    assert (HE2 : E <= (1 + u32) ^ (2 * n)) by (apply Rle_pow; [lra|exact Hlen]).
+    assert (Sv0 : 0 <= sum_R vs).
+    { apply sum_R_nonneg. eapply Forall_impl; [|exact Hvs]. intros a [_ Ha]. lra. }
+    (* sum of the prefix <= (S / T) (1+u)^3, and S / T <= 1 / q *)
+    assert (B1 : sum_R (firstn k L) <= S * (/ T * (1 + u32)) * c2).
+    { eapply Rle_trans; [exact Hk1|]. eapply Rle_trans; [exact PS|].
+      apply Rmult_le_compat_r; [lra|].
+      assert (Hinv0 : 0 <= inv) by (pose proof (bpow_gt_0 radix2 (-102)); lra).
+      unfold Rdiv in Hinv. rewrite Rmult_1_l in Hinv.
+      apply Rmult_le_compat; lra. }
+    assert (B2 : S * / T <= / q).
+    { apply Rmult_le_reg_r with (q * T); [nra|].
+      replace (S * / T * (q * T)) with (S * q * (T * / T)) by ring.
+      replace (/ q * (q * T)) with (T * (q * / q)) by ring.
+      rewrite Rinv_r by lra. rewrite Rinv_r by lra. lra. }
+    assert (Ppow : (1 + u32) ^ (2 * n + 3) = (1 + u32) * c2 * (1 + u32) ^ (2 * n)).
+    { rewrite pow_add. unfold c2. simpl. ring. }
+    rewrite Ppow. unfold Rdiv.
+    eapply Rle_trans; [exact AU|].
+    apply Rle_trans with (S * (/ T * (1 + u32)) * c2 * (1 + u32) ^ (2 * n)).
+    + apply Rmult_le_compat; try lra.
+    + replace (S * (/ T * (1 + u32)) * c2 * (1 + u32) ^ (2 * n))
+        with ((S * / T) * ((1 + u32) * c2 * (1 + u32) ^ (2 * n))) by ring.
+      rewrite (Rmult_comm ((1 + u32) * c2 * (1 + u32) ^ (2 * n)) (/ q)).
+      apply Rmult_le_compat_r; [|exact B2].
+      assert (0 < (1 + u32) ^ (2 * n)) by (apply pow_lt; lra).
+      apply Rmult_le_pos; [apply Rmult_le_pos; lra|lra].
 Qed.
